@@ -17,6 +17,8 @@ import re
 
 from .. import lib
 
+_LOC_SEQ = itertools.count()   # unique Coq case-file tags: compare_case may run in several threads
+
 PROP = "C18"
 PROP_FILE = "Props/C18.v"
 PRELUDE = ("From Coq Require Import List Arith ZArith.\nFrom AV Require Import UF.UfBase.\n"
@@ -516,7 +518,7 @@ def compare_case(c, isteps, m, locate=True):
     if not quick_agree(c, isteps, m):
         diff = (len(c["ops"]) - 1, "history fingerprints differ")
         if locate and spec is None:
-            diff = locate_diff(c, isteps, run_model([c], mode="steps", tag="C18l")[0]) or diff
+            diff = locate_diff(c, isteps, run_model([c], mode="steps", tag="C18l%d_%d" % (os.getpid(), next(_LOC_SEQ)))[0]) or diff
     return spec, diff
 
 
